@@ -415,6 +415,32 @@ func runC10(r *Run) {
 		}
 	}
 	c10BudgetedFaults(r)
+	c10KindsSweep(r)
+	// a returned evaluator can be evaluated without panicking: expressions fitted to typed data (every kind of the universe, boundary
+	// literals, all binding modes), besides the corpus on fixed documents below
+	ng := 3000
+	if r.Tier == "thorough" {
+		ng = 120000
+	}
+	genericCases(r, "fitted", ng, func(c *evalCase) {
+		o := c.obs()
+		r.Evaluations++
+		r.Count("stream:fitted")
+		r.Seen("fitted|" + opSig(c.ast) + "|" + kindSig(c.d) + "|" + o)
+		if o == "P" {
+			r.Violate("evaluate-panics", opSig(c.ast)+"|"+kindSig(c.d), c.desc(), "Evaluate panicked")
+		}
+		if flt, err := bexpr.CreateFilter(c.expr); err == nil && flt != nil && len(c.opts()) == 0 {
+			func() {
+				defer func() {
+					if p := recover(); p != nil {
+						r.Violate("execute-panics", opSig(c.ast)+"|"+kindSig(c.d), c.desc(), fmt.Sprint("Execute panicked on a one-element list of the datum: ", p))
+					}
+				}()
+				flt.Execute([]interface{}{c.d, c.d})
+			}()
+		}
+	})
 	parserCorpus(r.Tier, r.Seed, check)
 	extra := corpusSizes(r.Tier).malformed * 2
 	for i := 0; i < extra; i++ {
@@ -524,6 +550,42 @@ func runC11(r *Run) {
 			}
 			if el := time.Since(t0); el > 2*budgetTime(b) {
 				r.Violate("budget-not-bounding-time", fmt.Sprintf("deep-time|%d|%d", depth, b), c, el.String())
+			}
+		}
+	}
+	// the grammar package's own option, given explicitly: MaxExpressions(0) is "no limit", alone and after another budget; the Option an
+	// Option returns restores the previous setting
+	for _, s := range []string{"a == 1", "a == 1 and b == 2 or c == 3", "a ==", `x == "\q"`, "((a == 1))", "", "any a as x { x == 1 }"} {
+		unl := parseObs([]byte(s), 0)
+		for name, opts := range map[string][]grammar.Option{
+			"zero": {grammar.MaxExpressions(0)}, "small-then-zero": {grammar.MaxExpressions(3), grammar.MaxExpressions(0)}, "zero-with-other-options": {grammar.AllowInvalidUTF8(false), grammar.MaxExpressions(0), grammar.Recover(true)},
+			"maxuint64": {grammar.MaxExpressions(math.MaxUint64)},
+		} {
+			var got string
+			func() {
+				defer func() {
+					if p := recover(); p != nil {
+						got = "PANIC"
+					}
+				}()
+				ast, err, n := grammar.VerifParse("", []byte(s), opts...)
+				if err != nil {
+					mx := 0
+					if strings.Contains(err.Error(), "max number of expresssions parsed") {
+						mx = 1
+					}
+					got = fmt.Sprintf("R %d %d", n, mx)
+				} else if e, ok := ast.(grammar.Expression); ok && e != nil {
+					var pats []string
+					got = fmt.Sprintf("A %d %s", n, sExpr(e, &pats))
+				} else {
+					got = fmt.Sprintf("A %d NOTEXPR", n)
+				}
+			}()
+			r.Evaluations++
+			r.Seen("explicit-option|" + name + "|" + s)
+			if got != unl {
+				r.Violate("zero-budget-not-unlimited", "explicit|"+name+"|"+s, map[string]interface{}{"input": s, "grammar_options": name}, "with the explicit option(s): "+truncate(got, 160)+"; without: "+truncate(unl, 160))
 			}
 		}
 	}
